@@ -6,6 +6,7 @@ package main
 //
 //	base=<hex> hdr=<nil|-|Khex~vhex,vhex+…> ctor=<Get|Delete|PostJSONBody|…|Do|DoBody|DoMP> m=<hex> ct=<hex> tmpl=<hex>: op ; op ; …
 //	ops:  call <params> <body>       params: nil | - | khex=s<vhex>,khex=i<int>    body: nil | j<ahex>:<n> | f- | f<khex>=<vhex>,…
+//	                                 (further value kinds: l<int> int64, b<0|1> bool, t<vhex> defined string type, g<vhex> fmt.Stringer)
 //	      eval <io index> <fault> <resp>     fault: none|ser|tx|read|dec|dect      resp: ok<vhex>:<k>[:<status>] | bad[:<status>]
 //	                                          (<status> = HTTP status of the stub's response, 200 if absent; the property decodes
 //	                                          the body whatever the status is)
@@ -52,6 +53,12 @@ var (
 	c17ErrRead = errors.New("injected body read failure")
 	c17ErrDec  = errors.New("injected decoder failure")
 )
+
+type c17Str string
+
+type c17Stringer struct{ s string }
+
+func (x c17Stringer) String() string { return x.s }
 
 type c17FailReader struct{}
 
@@ -224,10 +231,22 @@ func c17ParseParams(s string) network.PathParam {
 		if len(kv) != 2 || kv[1] == "" {
 			continue
 		}
-		if kv[1][0] == 'i' {
+		// the property says "replaced by its value" for any printable value: besides string and int, an int64, a bool, a
+		// defined string type and a fmt.Stringer (all printed by %v as the model prints them)
+		switch kv[1][0] {
+		case 'i':
 			n, _ := strconv.Atoi(kv[1][1:])
 			p[unhx(kv[0])] = n
-		} else {
+		case 'l':
+			n, _ := strconv.ParseInt(kv[1][1:], 10, 64)
+			p[unhx(kv[0])] = n
+		case 'b':
+			p[unhx(kv[0])] = kv[1][1:] == "1"
+		case 't':
+			p[unhx(kv[0])] = c17Str(unhx(kv[1][1:]))
+		case 'g':
+			p[unhx(kv[0])] = c17Stringer{unhx(kv[1][1:])}
+		default:
 			p[unhx(kv[0])] = unhx(kv[1][1:])
 		}
 	}
@@ -475,9 +494,18 @@ func c17GenParams(rng *rand.Rand, tmplKeys []string) string {
 	rng.Shuffle(len(order), func(i, j int) { order[i], order[j] = order[j], order[i] })
 	parts := make([]string, len(order))
 	for i, k := range order {
-		if rng.Intn(5) == 0 {
+		switch r := rng.Intn(20); {
+		case r < 4:
 			parts[i] = hx(k) + "=i" + strconv.Itoa(rng.Intn(2000)-500)
-		} else {
+		case r == 4:
+			parts[i] = hx(k) + "=l" + strconv.Itoa(rng.Intn(2000)-500)
+		case r == 5:
+			parts[i] = hx(k) + "=b" + strconv.Itoa(rng.Intn(2))
+		case r == 6:
+			parts[i] = hx(k) + "=t" + hx(c17Vals[rng.Intn(len(c17Vals))])
+		case r == 7:
+			parts[i] = hx(k) + "=g" + hx(c17Vals[rng.Intn(len(c17Vals))])
+		default:
 			parts[i] = hx(k) + "=s" + hx(c17Vals[rng.Intn(len(c17Vals))])
 		}
 	}
